@@ -32,6 +32,8 @@ import (
 	"context"
 	"encoding/json"
 	"fmt"
+	"math"
+	"math/big"
 	"reflect"
 	"sort"
 	"strings"
@@ -44,9 +46,13 @@ import (
 	"k8s.io/apimachinery/pkg/types"
 	"k8s.io/apimachinery/pkg/util/intstr"
 	"k8s.io/client-go/tools/record"
+	"k8s.io/client-go/util/workqueue"
 	"k8s.io/klog/v2"
 	ctrl "sigs.k8s.io/controller-runtime"
+	"sigs.k8s.io/controller-runtime/pkg/client"
 	"sigs.k8s.io/controller-runtime/pkg/client/fake"
+	"sigs.k8s.io/controller-runtime/pkg/event"
+	"sigs.k8s.io/controller-runtime/pkg/reconcile"
 
 	"github.com/koordinator-sh/koordinator/apis/configuration"
 	apiext "github.com/koordinator-sh/koordinator/apis/extension"
@@ -85,25 +91,29 @@ type c20KV struct {
 var c20Sections = []*c20Section{
 	{name: "threshold", key: configuration.ResourceThresholdConfigKey,
 		typ: reflect.TypeOf(slov1alpha1.ResourceThresholdStrategy{}), cfgTyp: reflect.TypeOf(configuration.ResourceThresholdCfg{}),
-		def:   func() any { return sloconfig.DefaultResourceThresholdStrategy() },
-		get:   func(s *slov1alpha1.NodeSLOSpec) any { return s.ResourceUsedThresholdWithBE },
-		wrong: []c20KV{{"enable", "yes"}, {"cpuSuppressThresholdPercent", "sixty"}, {"cpuEvictPolicy", 5}}},
+		def: func() any { return sloconfig.DefaultResourceThresholdStrategy() },
+		get: func(s *slov1alpha1.NodeSLOSpec) any { return s.ResourceUsedThresholdWithBE },
+		wrong: []c20KV{{"enable", "yes"}, {"cpuSuppressThresholdPercent", "sixty"}, {"cpuEvictPolicy", 5},
+			{"cpuSuppressThresholdPercent", json.Number("60.5")}, {"cpuEvictTimeWindowSeconds", json.Number("92233720368547758080")}, {"evictEnabledPriorityThreshold", json.Number("2147483648")}}},
 	{name: "qos", key: configuration.ResourceQOSConfigKey,
 		typ: reflect.TypeOf(slov1alpha1.ResourceQOSStrategy{}), cfgTyp: reflect.TypeOf(configuration.ResourceQOSCfg{}),
 		// the controller's built-in default for resource QoS is "nothing set" (the per-class defaults are applied by the node agent)
-		def:   func() any { return &slov1alpha1.ResourceQOSStrategy{} },
-		get:   func(s *slov1alpha1.NodeSLOSpec) any { return s.ResourceQOSStrategy },
-		wrong: []c20KV{{"lsClass", 7}, {"beClass", map[string]any{"cpuQOS": map[string]any{"enable": 3}}}, {"policies", "x"}}},
+		def: func() any { return &slov1alpha1.ResourceQOSStrategy{} },
+		get: func(s *slov1alpha1.NodeSLOSpec) any { return s.ResourceQOSStrategy },
+		wrong: []c20KV{{"lsClass", 7}, {"beClass", map[string]any{"cpuQOS": map[string]any{"enable": 3}}}, {"policies", "x"},
+			{"lsClass", map[string]any{"cpuQOS": map[string]any{"groupIdentity": json.Number("1.5")}}}, {"beClass", map[string]any{"networkQOS": map[string]any{"ingressLimit": true}}},
+			{"cgroupRoot", map[string]any{"blkioQOS": map[string]any{"blocks": map[string]any{"name": "x"}}}}}},
 	{name: "cpuburst", key: configuration.CPUBurstConfigKey,
 		typ: reflect.TypeOf(slov1alpha1.CPUBurstStrategy{}), cfgTyp: reflect.TypeOf(configuration.CPUBurstCfg{}),
 		def:   func() any { return sloconfig.DefaultCPUBurstStrategy() },
 		get:   func(s *slov1alpha1.NodeSLOSpec) any { return s.CPUBurstStrategy },
-		wrong: []c20KV{{"cpuBurstPercent", "x"}, {"policy", 5}, {"sharePoolThresholdPercent", true}}},
+		wrong: []c20KV{{"cpuBurstPercent", "x"}, {"policy", 5}, {"sharePoolThresholdPercent", true}, {"cfsQuotaBurstPercent", json.Number("1e30")}, {"cpuBurstPercent", json.Number("1000.25")}}},
 	{name: "system", key: configuration.SystemConfigKey,
 		typ: reflect.TypeOf(slov1alpha1.SystemStrategy{}), cfgTyp: reflect.TypeOf(configuration.SystemCfg{}),
-		def:   func() any { return sloconfig.DefaultSystemStrategy() },
-		get:   func(s *slov1alpha1.NodeSLOSpec) any { return s.SystemStrategy },
-		wrong: []c20KV{{"minFreeKbytesFactor", true}, {"schedFeatures", []any{1}}, {"watermarkScaleFactor", "9"}}},
+		def: func() any { return sloconfig.DefaultSystemStrategy() },
+		get: func(s *slov1alpha1.NodeSLOSpec) any { return s.SystemStrategy },
+		wrong: []c20KV{{"minFreeKbytesFactor", true}, {"schedFeatures", []any{1}}, {"watermarkScaleFactor", "9"},
+			{"totalNetworkBandwidth", "a lot"}, {"totalNetworkBandwidth", true}, {"schedFeatures", map[string]any{"ID_BOOK_CPU": "on"}}, {"minFreeKbytesFactor", json.Number("0.5")}}},
 	{name: "hostapp", key: configuration.HostApplicationConfigKey,
 		cfgTyp: reflect.TypeOf(configuration.HostApplicationCfg{}),
 		get:    func(s *slov1alpha1.NodeSLOSpec) any { return s.HostApplications }},
@@ -168,7 +178,7 @@ func c20Flatten(v reflect.Value, path string, out c20Leaves) {
 		if v.Type() == c20TypQuantity {
 			q := v.Interface().(resource.Quantity)
 			if !q.IsZero() {
-				out[path] = fmt.Sprintf("q:%d", q.MilliValue())
+				out[path] = c20QuantityCanon(q)
 			}
 			return
 		}
@@ -210,6 +220,45 @@ func c20Flatten(v reflect.Value, path string, out c20Leaves) {
 	default:
 		panic("c20Flatten: unhandled kind " + v.Kind().String() + " at " + path)
 	}
+}
+
+// c20QuantityCanon: exact rational value, independent of the textual form (1000M == 1G == 1e9).
+func c20QuantityCanon(q resource.Quantity) string {
+	d := q.AsDec()
+	v := new(big.Rat).SetInt(d.UnscaledBig())
+	sc := int64(d.Scale())
+	if sc < 0 {
+		v.Mul(v, new(big.Rat).SetInt(new(big.Int).Exp(big.NewInt(10), big.NewInt(-sc), nil)))
+	} else if sc > 0 {
+		v.Quo(v, new(big.Rat).SetInt(new(big.Int).Exp(big.NewInt(10), big.NewInt(sc), nil)))
+	}
+	return "q:" + v.RatString()
+}
+
+// c20Generic decodes JSON into generic values keeping numbers literally (no float64 rounding of 64-bit integers).
+func c20Generic(b []byte, into any) error {
+	d := json.NewDecoder(strings.NewReader(string(b)))
+	d.UseNumber()
+	return d.Decode(into)
+}
+
+// c20QuantityText renders n mega-units in one of the textual forms resource.Quantity accepts.
+func c20QuantityText(r *kit.Rand, n int64) string {
+	switch r.Weighted(58, 8, 8, 8, 8, 8, 2) {
+	case 1:
+		return fmt.Sprintf("%dk", n*1000)
+	case 2:
+		return fmt.Sprintf("%d", n*1000000)
+	case 3:
+		return fmt.Sprintf("%dMi", n)
+	case 4:
+		return fmt.Sprintf("%d.5M", n)
+	case 5:
+		return fmt.Sprintf("%de6", n)
+	case 6:
+		return fmt.Sprintf("%dG", n)
+	}
+	return fmt.Sprintf("%dM", n)
 }
 
 func c20FlattenAny(x any) c20Leaves {
@@ -338,9 +387,21 @@ var c20Enum = map[string][]string{
 
 var c20SchedFeatureKeys = []string{"ID_BOOK_CPU", "ID_EXPELLER_SHARE_CORE", "ID_ABSOLUTE_EXPEL"}
 
+// integer fields without an upper bound in the API (no max in the validate tag / kubebuilder marker)
+var c20Unbounded = map[string]bool{
+	"pageCacheLimitSize": true, "readIOPS": true, "writeIOPS": true, "readBPS": true, "writeBPS": true, "readLatency": true, "writeLatency": true,
+	"modelReadBPS": true, "modelWriteBPS": true, "modelReadSeqIOPS": true, "modelWriteSeqIOPS": true, "modelReadRandIOPS": true, "modelWriteRandIOPS": true,
+	"memoryAllocatableEvictThresholdPercent": true, "cpuAllocatableEvictThresholdPercent": true, "cpuEvictTimeWindowSeconds": true,
+	"cfsQuotaBurstPercent": true, "cfsQuotaBurstPeriodSeconds": true, "minFreeKbytesFactor": true,
+	"schedIdleSaverWmark": true, "schedGroupIdentityEnabled": true, "evictEnabledPriorityThreshold": true,
+}
+
+// integer fields without any validation: negative values are legal input too
+var c20AnySign = map[string]bool{"schedIdleSaverWmark": true, "schedGroupIdentityEnabled": true, "evictEnabledPriorityThreshold": true}
+
 type c20Gen struct {
 	r         *kit.Rand
-	layer     int // 0 = cluster, 1..4 = node entry index+1  (selects the sentinel band)
+	layer     int // 0 = cluster, 1.. = node entry index+1  (selects the sentinel band: layer mod 5)
 	leafPct   int
 	structPct int
 	seq       int
@@ -355,18 +416,36 @@ func (g *c20Gen) band(lo, hi int64) int64 {
 	if bw == 0 {
 		return lo + g.r.Int63n(w)
 	}
-	return lo + int64(g.layer)*bw + g.r.Int63n(bw)
+	b := g.layer % 5
+	if g.r.Pct(7) { // ties: a value from another layer's band (equal values at different layers become possible)
+		b = g.r.Intn(5)
+	}
+	return lo + int64(b)*bw + g.r.Int63n(bw)
 }
 
-func (g *c20Gen) intFor(name string) int64 {
+func (g *c20Gen) intFor(name string, bits int) int64 {
 	rg, ok := c20IntRange[name]
 	if !ok {
 		panic("c20Gen: no integer range for JSON field " + name)
 	}
+	switch {
+	case g.r.Pct(8): // the ends of the legal range (0 / false-like values set explicitly at a layer)
+		return rg[g.r.Intn(2)]
+	case c20Unbounded[name] && g.r.Pct(6):
+		if bits == 32 {
+			return math.MaxInt32
+		}
+		return kit.Pick(g.r, []int64{math.MaxInt32 + 1, 1<<53 + 1, 1 << 62, math.MaxInt64})
+	case c20AnySign[name] && g.r.Pct(6):
+		if bits == 32 {
+			return kit.Pick(g.r, []int64{-1, math.MinInt32})
+		}
+		return kit.Pick(g.r, []int64{-1, math.MinInt64})
+	}
 	return g.band(rg[0], rg[1])
 }
 
-func (g *c20Gen) strFor(name string) string {
+func (g *c20Gen) strFor(name string, pointer bool) string {
 	if name == "name" {
 		g.seq++
 		return fmt.Sprintf("L%d-blk%d", g.layer, g.seq)
@@ -374,6 +453,12 @@ func (g *c20Gen) strFor(name string) string {
 	e, ok := c20Enum[name]
 	if !ok {
 		panic("c20Gen: no enum for JSON field " + name)
+	}
+	switch {
+	case g.r.Pct(5): // the types are plain strings: values outside the known constants are accepted by the controller
+		return fmt.Sprintf("custom-L%d", g.layer)
+	case pointer && g.r.Pct(3): // a pointer to "" is set (and survives the JSON round trip)
+		return ""
 	}
 	return kit.Pick(g.r, e)
 }
@@ -416,13 +501,17 @@ func (g *c20Gen) fill(v reflect.Value) {
 			case et.Kind() == reflect.Int64 || et.Kind() == reflect.Int32:
 				if g.hit() {
 					nv := reflect.New(et)
-					nv.Elem().SetInt(g.intFor(name))
+					bits := 64
+					if et.Kind() == reflect.Int32 {
+						bits = 32
+					}
+					nv.Elem().SetInt(g.intFor(name, bits))
 					f.Set(nv)
 				}
 			case et.Kind() == reflect.String:
 				if g.hit() {
 					nv := reflect.New(et)
-					nv.Elem().SetString(g.strFor(name))
+					nv.Elem().SetString(g.strFor(name, true))
 					f.Set(nv)
 				}
 			default:
@@ -431,14 +520,14 @@ func (g *c20Gen) fill(v reflect.Value) {
 		case reflect.Struct:
 			if sf.Type == c20TypQuantity {
 				if g.hit() {
-					f.Set(reflect.ValueOf(resource.MustParse(fmt.Sprintf("%dM", g.band(1, 1000)))))
+					f.Set(reflect.ValueOf(resource.MustParse(c20QuantityText(g.r, g.band(1, 1000)))))
 				}
 			} else {
 				g.fill(f)
 			}
 		case reflect.String:
 			if g.hit() {
-				f.SetString(g.strFor(name))
+				f.SetString(g.strFor(name, false))
 			}
 		case reflect.Map: // map[string]bool
 			if g.hit() {
@@ -448,6 +537,9 @@ func (g *c20Gen) fill(v reflect.Value) {
 						m.SetMapIndex(reflect.ValueOf(k), reflect.ValueOf(g.r.Bool()))
 					}
 				}
+				if g.r.Pct(15) { // the kernel's feature list is open-ended
+					m.SetMapIndex(reflect.ValueOf(fmt.Sprintf("CUSTOM_FEATURE_%d", g.r.Intn(3))), reflect.ValueOf(g.r.Bool()))
+				}
 				if m.Len() > 0 {
 					f.Set(m)
 				}
@@ -455,6 +547,9 @@ func (g *c20Gen) fill(v reflect.Value) {
 		case reflect.Slice: // []*BlockCfg
 			if g.hit() {
 				n := g.r.Range(1, 2)
+				if g.r.Pct(10) {
+					n = g.r.Range(3, 5)
+				}
 				s := reflect.MakeSlice(sf.Type, 0, n)
 				sub := *g
 				if sub.leafPct < 35 {
@@ -485,11 +580,18 @@ func (g *c20Gen) genStrategyJSON(t reflect.Type) map[string]any {
 		panic("c20Gen: marshal typed strategy: " + err.Error())
 	}
 	m := map[string]any{}
-	if err := json.Unmarshal(b, &m); err != nil {
+	if err := c20Generic(b, &m); err != nil {
 		panic("c20Gen: " + err.Error())
 	}
-	if q, ok := m["totalNetworkBandwidth"]; ok && q == "0" {
-		delete(m, "totalNetworkBandwidth")
+	if q, ok := m["totalNetworkBandwidth"]; ok {
+		if q == "0" {
+			delete(m, "totalNetworkBandwidth")
+		} else if qs, _ := q.(string); strings.Trim(qs, "0123456789") == "" && g.r.Pct(40) {
+			m["totalNetworkBandwidth"] = json.Number(qs) // a quantity may be written as a bare JSON number
+		}
+	}
+	if g.r.Pct(6) { // members this version does not know are ignored, not an error
+		m["unknownFutureKnob"] = map[string]any{"x": 1}
 	}
 	return m
 }
@@ -499,6 +601,40 @@ var (
 	c20LabelVals = []string{"a", "b", "c"}
 )
 
+const c20PrefixedKey = "node.kubernetes.io/instance-type"
+
+func c20PickKey(r *kit.Rand) string {
+	if r.Pct(10) {
+		return c20PrefixedKey
+	}
+	return kit.Pick(r, c20LabelKeys)
+}
+
+func c20PickVal(r *kit.Rand) string {
+	if r.Pct(6) {
+		return "" // the empty string is a legal label value
+	}
+	return kit.Pick(r, c20LabelVals)
+}
+
+func c20GenLabels(r *kit.Rand, pct int) map[string]string {
+	lbl := map[string]string{}
+	for _, k := range c20LabelKeys {
+		if r.Pct(pct) {
+			lbl[k] = c20PickVal(r)
+		}
+	}
+	if r.Pct(20) {
+		lbl[c20PrefixedKey] = c20PickVal(r)
+	}
+	if r.Pct(8) { // many labels no selector mentions
+		for i := 0; i < 10; i++ {
+			lbl[fmt.Sprintf("example.com/unrelated-%d", i)] = kit.Pick(r, c20LabelVals)
+		}
+	}
+	return lbl
+}
+
 func c20GenSelector(r *kit.Rand) *metav1.LabelSelector {
 	sel := &metav1.LabelSelector{}
 	switch r.Weighted(6, 8, 36, 12, 26, 12) {
@@ -507,21 +643,26 @@ func c20GenSelector(r *kit.Rand) *metav1.LabelSelector {
 	case 1:
 		return sel // documented: an empty selector matches every node
 	case 2:
-		sel.MatchLabels = map[string]string{kit.Pick(r, c20LabelKeys): kit.Pick(r, c20LabelVals)}
+		sel.MatchLabels = map[string]string{c20PickKey(r): c20PickVal(r)}
 	case 3:
 		p := r.Perm(len(c20LabelKeys))
-		sel.MatchLabels = map[string]string{c20LabelKeys[p[0]]: kit.Pick(r, c20LabelVals), c20LabelKeys[p[1]]: kit.Pick(r, c20LabelVals)}
+		sel.MatchLabels = map[string]string{c20LabelKeys[p[0]]: c20PickVal(r), c20LabelKeys[p[1]]: c20PickVal(r)}
 	case 4:
 		sel.MatchExpressions = []metav1.LabelSelectorRequirement{c20GenExpr(r)}
+		if r.Pct(20) {
+			for n := r.Range(1, 2); n > 0; n-- {
+				sel.MatchExpressions = append(sel.MatchExpressions, c20GenExpr(r))
+			}
+		}
 	case 5:
-		sel.MatchLabels = map[string]string{kit.Pick(r, c20LabelKeys): kit.Pick(r, c20LabelVals)}
+		sel.MatchLabels = map[string]string{c20PickKey(r): c20PickVal(r)}
 		sel.MatchExpressions = []metav1.LabelSelectorRequirement{c20GenExpr(r)}
 	}
 	return sel
 }
 
 func c20GenExpr(r *kit.Rand) metav1.LabelSelectorRequirement {
-	e := metav1.LabelSelectorRequirement{Key: kit.Pick(r, c20LabelKeys)}
+	e := metav1.LabelSelectorRequirement{Key: c20PickKey(r)}
 	switch r.Intn(4) {
 	case 0, 1:
 		e.Operator = metav1.LabelSelectorOpIn
@@ -529,9 +670,12 @@ func c20GenExpr(r *kit.Rand) metav1.LabelSelectorRequirement {
 			e.Operator = metav1.LabelSelectorOpNotIn
 		}
 		p := r.Perm(len(c20LabelVals))
-		n := r.Range(1, 2)
+		n := r.Range(1, 3)
 		for i := 0; i < n; i++ {
 			e.Values = append(e.Values, c20LabelVals[p[i]])
+		}
+		if r.Pct(6) {
+			e.Values = append(e.Values, "")
 		}
 		sort.Strings(e.Values)
 	case 2:
@@ -545,7 +689,7 @@ func c20GenExpr(r *kit.Rand) metav1.LabelSelectorRequirement {
 func c20SelectorJSON(sel *metav1.LabelSelector) any {
 	b, _ := json.Marshal(sel)
 	var x any
-	_ = json.Unmarshal(b, &x)
+	_ = c20Generic(b, &x)
 	return x
 }
 
@@ -557,6 +701,12 @@ func c20GenApps(r *kit.Rand, layer int, n int) []any {
 			Priority: kit.Pick(r, []apiext.PriorityClass{apiext.PriorityProd, apiext.PriorityMid, apiext.PriorityBatch, ""}),
 			QoS:      kit.Pick(r, []apiext.QoSClass{apiext.QoSLS, apiext.QoSBE, apiext.QoSLSR, ""}),
 		}
+		if i > 0 && r.Pct(8) { // names are not required to be unique
+			a.Name = fmt.Sprintf("L%d-app%d", layer, i-1)
+		}
+		if r.Pct(10) {
+			a.Strategy = &slov1alpha1.HostApplicationStrategy{}
+		}
 		if r.Bool() {
 			a.CgroupPath = &slov1alpha1.CgroupPath{
 				Base:         kit.Pick(r, []slov1alpha1.CgroupBaseType{slov1alpha1.CgroupBaseTypeRoot, slov1alpha1.CgroupBaseTypeKubepods, slov1alpha1.CgroupBaseTypeKubeBurstable, ""}),
@@ -566,7 +716,7 @@ func c20GenApps(r *kit.Rand, layer int, n int) []any {
 		}
 		b, _ := json.Marshal(a)
 		var x any
-		_ = json.Unmarshal(b, &x)
+		_ = c20Generic(b, &x)
 		out = append(out, x)
 	}
 	return out
@@ -576,6 +726,24 @@ func c20GenApps(r *kit.Rand, layer int, n int) []any {
 func c20GenValid(r *kit.Rand, sec *c20Section, full bool) string {
 	env := map[string]any{}
 	nEntries := r.Intn(5)
+	if r.Pct(6) { // "any number of node entries"
+		nEntries = r.Range(5, 12)
+	}
+	few := func(lo, hi, rareHi int) int {
+		if r.Pct(8) {
+			return r.Range(hi+1, rareHi)
+		}
+		return r.Range(lo, hi)
+	}
+	entryName := func(e map[string]any, i int) {
+		switch {
+		case r.Pct(8): // the name is optional
+		case i > 0 && r.Pct(8): // and not required to be unique here
+			e["name"] = fmt.Sprintf("e%d", r.Intn(i))
+		default:
+			e["name"] = fmt.Sprintf("e%d", i)
+		}
+	}
 	var prevSel []*metav1.LabelSelector
 	genSel := func() *metav1.LabelSelector {
 		// 25%: literally the selector of an earlier entry (two entries matching the same nodes, first wins)
@@ -587,20 +755,21 @@ func c20GenValid(r *kit.Rand, sec *c20Section, full bool) string {
 	entryDensity := []int{5, 15, 40, 80}
 	if sec.typ == nil { // host applications: whole-value lists
 		if full || r.Pct(70) {
-			if apps := c20GenApps(r, 0, r.Range(1, 3)); len(apps) > 0 {
+			if apps := c20GenApps(r, 0, few(1, 3, 8)); len(apps) > 0 {
 				env["applications"] = apps
 			}
 		}
 		var ents []any
 		for i := 0; i < nEntries; i++ {
-			e := map[string]any{"name": fmt.Sprintf("e%d", i)}
+			e := map[string]any{}
+			entryName(e, i)
 			sel := genSel()
 			prevSel = append(prevSel, sel)
 			if sel != nil {
 				e["nodeSelector"] = c20SelectorJSON(sel)
 			}
 			if r.Pct(85) {
-				e["applications"] = c20GenApps(r, i+1, r.Range(1, 2))
+				e["applications"] = c20GenApps(r, i+1, few(1, 2, 5))
 			}
 			ents = append(ents, e)
 		}
@@ -628,7 +797,7 @@ func c20GenValid(r *kit.Rand, sec *c20Section, full bool) string {
 				}
 				e = g.genStrategyJSON(sec.typ)
 			}
-			e["name"] = fmt.Sprintf("e%d", i)
+			entryName(e, i)
 			sel := genSel()
 			prevSel = append(prevSel, sel)
 			if sel != nil {
@@ -642,6 +811,9 @@ func c20GenValid(r *kit.Rand, sec *c20Section, full bool) string {
 			}
 			env["nodeStrategies"] = ents
 		}
+	}
+	if r.Pct(6) {
+		env["futureSection"] = []any{1, "x"}
 	}
 	return c20Marshal(r, env)
 }
@@ -659,12 +831,14 @@ func c20Marshal(r *kit.Rand, x any) string {
 // c20GenMalformed returns a text that cannot be parsed into the section's configuration.
 func c20GenMalformed(r *kit.Rand, sec *c20Section) (text string, kind string) {
 	valid := c20GenValid(r, sec, false)
-	switch r.Weighted(40, 45, 15) {
+	switch r.Weighted(34, 44, 12, 10) {
 	case 0: // truncated JSON: a proper prefix of an object text is never a complete JSON value
 		return valid[:r.Range(1, len(valid)-1)], "truncated"
+	case 3: // a complete value followed by something else
+		return valid + kit.Pick(r, []string{" x", "}", ",", "{}", "]"}), "trailing-garbage"
 	case 1: // wrong type somewhere
 		var env map[string]any
-		_ = json.Unmarshal([]byte(valid), &env)
+		_ = c20Generic([]byte(valid), &env)
 		entKey, cluKey := "nodeStrategies", "clusterStrategy"
 		if sec.typ == nil {
 			entKey = "nodeConfigs"
@@ -791,6 +965,14 @@ func c20Parse(sec *c20Section, text string) (*c20Eff, error) {
 		eff.entries = append(eff.entries, e)
 	}
 	return eff, nil
+}
+
+func c20EntryLeaves(e *c20Eff) []c20Leaves {
+	var out []c20Leaves
+	for i := range e.entries {
+		out = append(out, e.entries[i].leaves)
+	}
+	return out
 }
 
 // matching entries of a node, in list order
@@ -940,6 +1122,7 @@ type c20Node struct {
 	prevSpec   *slov1alpha1.NodeSLOSpec
 	prevStored *c20Obs // stored NodeSLO.Spec after the previous step
 	hasSLO     bool
+	staleSLO   bool // the NodeSLO object exists from before this controller instance, with unrelated content
 }
 
 type c20SecState struct {
@@ -963,20 +1146,22 @@ type c20Run struct {
 	malformedNow map[string]bool
 	h            *SLOCfgHandlerForConfigMapEvent
 	rec          *NodeSLOReconciler
+	cmInAPI      *corev1.ConfigMap // the slo-controller ConfigMap object as stored in the fake API (nil: does not exist)
+	cmVersion    int
+	enqueued     map[string]bool // nodes whose Reconcile is due after this step
 
 	sawMalformedAfterGood, sawDecisiveFirstWins bool
 }
 
 func c20AnnValue(r *kit.Rand, idx int) string {
 	// per-node sentinel band, disjoint from every band used inside the ConfigMap (1M..1000M)
-	return fmt.Sprintf("%dM", 2000+1000*idx+r.Intn(1000))
+	return c20QuantityText(r, int64(2000+1000*idx+r.Intn(1000)))
 }
 
 func (n *c20Node) setAnn(v string) {
 	n.ann, n.annLeaf = v, ""
 	if v != "" {
-		q := resource.MustParse(v)
-		n.annLeaf = fmt.Sprintf("q:%d", q.MilliValue())
+		n.annLeaf = c20QuantityCanon(resource.MustParse(v))
 		n.annEver[n.annLeaf] = true
 	}
 }
@@ -1021,6 +1206,24 @@ func (x *c20Run) install(sec *c20Section) {
 			c.Count("leaves_set_entry_"+sec.name, len(e.leaves)+len(e.apps))
 		}
 		c.Count("entries_"+sec.name, len(eff.entries))
+		if len(eff.entries) >= 5 {
+			c.Count("sections_with_5plus_entries", 1)
+		}
+		for _, l := range append([]c20Leaves{eff.cluster}, c20EntryLeaves(eff)...) {
+			for p, v := range l {
+				switch {
+				case strings.HasPrefix(v, "q:") || strings.HasPrefix(v, "ios"):
+				case strings.HasPrefix(v, "-") && len(v) > 1 && !strings.HasSuffix(p, "groupIdentity") && !strings.HasSuffix(p, "wmarkMinAdj") && !strings.HasSuffix(p, "cfsQuotaBurstPeriodSeconds"):
+					c.Count("negative_unvalidated_leaves_set", 1)
+				case len(v) >= 16 && strings.Trim(v, "0123456789") == "":
+					c.Count("int64_scale_integer_leaves_set", 1)
+				case v == "":
+					c.Count("empty_string_pointer_leaves_set", 1)
+				case strings.HasPrefix(v, "custom-L"):
+					c.Count("unknown_enum_leaves_set", 1)
+				}
+			}
+		}
 	}
 	c.Op("step %d %s state=%s text=%s", x.step, sec.name, state, s.lastText)
 }
@@ -1049,10 +1252,11 @@ func (x *c20Run) genUpdate() {
 					forms = append(forms, `{"applications":[]}`, `{"nodeConfigs":[]}`)
 				}
 				s.lastText, s.hasText = kit.Pick(r, forms), true
-			case "partial":
-				s.lastText, s.hasText = c20GenValid(r, sec, false), true
-			case "full":
-				s.lastText, s.hasText = c20GenValid(r, sec, true), true
+			case "partial", "full":
+				s.lastText, s.hasText = c20GenValid(r, sec, state == "full"), true
+				if r.Pct(10) { // ConfigMap values written as YAML block scalars come with surrounding white space
+					s.lastText = kit.Pick(r, []string{"\n", " ", "\n  "}) + s.lastText + kit.Pick(r, []string{"\n", "\n\n", " \t"})
+				}
 			case "malformed":
 				var kind string
 				s.lastText, kind = c20GenMalformed(r, sec)
@@ -1111,7 +1315,7 @@ func c20DropOne(r *kit.Rand, obj map[string]any, keep map[string]bool, depth int
 // c20Withdraw derives from a parseable section text one that only takes settings away.
 func c20Withdraw(r *kit.Rand, sec *c20Section, text string) (string, string, bool) {
 	var env map[string]any
-	if err := json.Unmarshal([]byte(text), &env); err != nil || env == nil {
+	if err := c20Generic([]byte(text), &env); err != nil || env == nil {
 		return "", "", false
 	}
 	entKey, cluKey := "nodeStrategies", "clusterStrategy"
@@ -1206,7 +1410,20 @@ func (x *c20Run) genWithdraw() bool {
 	return true
 }
 
-func (x *c20Run) sync() {
+// c20Queue stands in for the controller's work queue: it only records what the handler enqueues.
+type c20Queue struct {
+	workqueue.TypedRateLimitingInterface[reconcile.Request]
+	names []string
+}
+
+func (q *c20Queue) Add(item reconcile.Request) { q.names = append(q.names, item.Name) }
+
+// sync delivers the new ConfigMap version the way the controller gets it: the object is written to
+// the API and the Create / Update event goes through the real event handler (name filter, "data
+// unchanged" short cut, syncNodeSLOSpecIfChanged -> syncConfig, enqueue of every node when the
+// merged configuration changed). how = "event" | "startup" (object in the API, no event: the first
+// Reconcile loads it through IsCfgAvailable).
+func (x *c20Run) sync(how string) {
 	c := x.c
 	data := map[string]string{}
 	for _, sec := range c20Sections {
@@ -1217,23 +1434,81 @@ func (x *c20Run) sync() {
 	if x.r.Pct(30) { // unrelated keys of the same ConfigMap
 		data[configuration.ColocationConfigKey] = kit.Pick(x.r, []string{`{"enable":true}`, "invalid_content", "{}"})
 	}
+	x.cmVersion++
 	cm := &corev1.ConfigMap{
 		TypeMeta:   metav1.TypeMeta{Kind: "ConfigMap", APIVersion: "v1"},
-		ObjectMeta: metav1.ObjectMeta{Name: sloconfig.SLOCtrlConfigMap, Namespace: sloconfig.ConfigNameSpace, ResourceVersion: fmt.Sprint(x.step + 1)},
+		ObjectMeta: metav1.ObjectMeta{Name: sloconfig.SLOCtrlConfigMap, Namespace: sloconfig.ConfigNameSpace},
 		Data:       data,
 	}
-	changed := x.h.syncNodeSLOSpecIfChanged(cm)
-	c.Op("step %d syncConfig -> changed=%v", x.step, changed)
-	c.Count("sync_calls", 1)
-	if changed {
-		c.Count("sync_changed", 1)
+	if len(data) == 0 && x.r.Bool() {
+		cm.Data = nil
 	}
+	q := &c20Queue{}
+	old := x.cmInAPI
+	if old == nil {
+		if err := x.rec.Client.Create(context.TODO(), cm); err != nil {
+			c.Harness("fake API: create ConfigMap: %v", err)
+		}
+		if how == "event" {
+			x.h.Create(context.TODO(), event.TypedCreateEvent[client.Object]{Object: cm.DeepCopy()}, q)
+		}
+	} else {
+		cm.ResourceVersion = old.ResourceVersion
+		if err := x.rec.Client.Update(context.TODO(), cm); err != nil {
+			c.Harness("fake API: update ConfigMap: %v", err)
+		}
+		x.h.Update(context.TODO(), event.TypedUpdateEvent[client.Object]{ObjectOld: old.DeepCopy(), ObjectNew: cm.DeepCopy()}, q)
+	}
+	x.cmInAPI = cm
+	for _, name := range q.names {
+		x.enqueued[name] = true
+	}
+	c.Op("step %d ConfigMap v%d delivered (%s) -> %d nodes enqueued", x.step, x.cmVersion, how, len(q.names))
+	c.Count("sync_calls", 1)
+	switch {
+	case how != "event":
+		c.Count("cm_loaded_at_startup", 1)
+	case len(q.names) > 0:
+		c.Count("cm_events_enqueued_nodes", 1)
+	default:
+		c.Count("cm_events_without_enqueue", 1)
+	}
+}
+
+// foreign: events of ConfigMaps that are not the slo-controller ConfigMap carry hostile content and must not matter.
+func (x *c20Run) foreign() {
+	r := x.r
+	data := map[string]string{}
+	for _, sec := range c20Sections {
+		switch r.Intn(3) {
+		case 0:
+			data[sec.key] = c20GenValid(r, sec, r.Bool())
+		case 1:
+			data[sec.key] = "invalid_content"
+		}
+	}
+	cm := &corev1.ConfigMap{ObjectMeta: metav1.ObjectMeta{Name: sloconfig.SLOCtrlConfigMap, Namespace: sloconfig.ConfigNameSpace}, Data: data}
+	if r.Bool() {
+		cm.Name = "slo-controller-config-backup"
+	} else {
+		cm.Namespace = "default"
+	}
+	q := &c20Queue{}
+	if r.Bool() {
+		x.h.Create(context.TODO(), event.TypedCreateEvent[client.Object]{Object: cm}, q)
+	} else {
+		x.h.Update(context.TODO(), event.TypedUpdateEvent[client.Object]{ObjectOld: &corev1.ConfigMap{ObjectMeta: cm.ObjectMeta}, ObjectNew: cm}, q)
+	}
+	for _, name := range q.names {
+		x.enqueued[name] = true
+	}
+	x.c.Op("step %d event of another ConfigMap %s/%s with %d section keys", x.step, cm.Namespace, cm.Name, len(data))
 }
 
 // relabel: 1-2 nodes get other labels and/or another / no bandwidth annotation (Node update in the API).
 func (x *c20Run) relabel() {
 	r, c := x.r, x.c
-	for _, ni := range r.Perm(len(x.nodes))[:r.Range(1, 2)] {
+	for _, ni := range r.Perm(len(x.nodes))[:r.Range(1, min(2, len(x.nodes)))] {
 		n := x.nodes[ni]
 		lbl := map[string]string{}
 		for k, v := range n.node.Labels {
@@ -1242,16 +1517,11 @@ func (x *c20Run) relabel() {
 		op := r.Intn(4)
 		switch op {
 		case 0: // add a label / change its value
-			lbl[kit.Pick(r, c20LabelKeys)] = kit.Pick(r, c20LabelVals)
+			lbl[c20PickKey(r)] = c20PickVal(r)
 		case 1: // remove a label
-			delete(lbl, kit.Pick(r, c20LabelKeys))
+			delete(lbl, c20PickKey(r))
 		case 2: // new label set
-			lbl = map[string]string{}
-			for _, k := range c20LabelKeys {
-				if r.Pct(55) {
-					lbl[k] = kit.Pick(r, c20LabelVals)
-				}
-			}
+			lbl = c20GenLabels(r, 55)
 		}
 		if !reflect.DeepEqual(lbl, map[string]string(n.node.Labels)) && !(len(lbl) == 0 && len(n.node.Labels) == 0) {
 			c.Count("node_relabels", 1)
@@ -1281,6 +1551,7 @@ func (x *c20Run) relabel() {
 			c.Harness("fake API: update node: %v", err)
 		}
 		n.node = obj.DeepCopy()
+		x.enqueued[n.node.Name] = true // the Node event is followed by a Reconcile of that node
 		c.Op("step %d relabel node-%d labels=%v bandwidth-annotation=%q", x.step, ni, lbl, n.ann)
 	}
 }
@@ -1471,6 +1742,10 @@ func (x *c20Run) recompute(n *c20Node, first *c20Obs, after string) {
 func (x *c20Run) observe() {
 	c, r := x.c, x.r
 	nn := len(x.nodes)
+	// Reconcile asks this first; when nothing was synced yet it loads the ConfigMap (or the defaults) itself
+	if !x.rec.sloCfgCache.IsCfgAvailable() {
+		c.Fail("C20/config/unavailable", "step %d: IsCfgAvailable() = false although the fake API answers", x.step)
+	}
 	// (A) specs computed directly, annotated and non-annotated nodes in mixed order
 	specs, obs := make([]*slov1alpha1.NodeSLOSpec, nn), make([]*c20Obs, nn)
 	order := r.Perm(nn)
@@ -1502,8 +1777,11 @@ func (x *c20Run) observe() {
 			c.Count("node_steps_pure_withdrawal_"+x.stepKind, 1)
 		}
 	}
-	// (B) the write path: Reconcile every node, read the stored NodeSLO back
-	stored := make([]*c20Obs, nn)
+	// (B) the write path. Reconcile runs for the nodes that are due: every node the ConfigMap handler
+	// enqueued, relabelled nodes, nodes without a NodeSLO (Node create event / NodeSLO delete event),
+	// and now and then any node (a spurious Reconcile is always possible). Afterwards the stored
+	// NodeSLO of EVERY node is read back: also a node that was not reconciled must (still) have
+	// exactly the expected spec.
 	for _, ni := range r.Perm(nn) {
 		n := x.nodes[ni]
 		key := types.NamespacedName{Name: n.node.Name}
@@ -1514,19 +1792,31 @@ func (x *c20Run) observe() {
 			n.hasSLO = false
 			c.Op("step %d NodeSLO node-%d deleted", x.step, ni)
 		}
+		if !(x.enqueued[n.node.Name] || !n.hasSLO || r.Pct(15)) {
+			c.Count("nodes_not_reconciled_after_step", 1)
+			continue
+		}
 		res, err := x.rec.Reconcile(context.TODO(), ctrl.Request{NamespacedName: key})
 		if err != nil || res.Requeue {
 			c.Fail("C20/reconcile/error", "step %d Reconcile(node-%d) = %+v, %v", x.step, ni, res, err)
 		}
 		c.Count("reconciles", 1)
-		if n.hasSLO {
-			c.Count("reconciles_existing_nodeslo", 1)
-		} else {
+		switch {
+		case !n.hasSLO:
 			c.Count("reconciles_fresh_nodeslo", 1)
+		case n.staleSLO:
+			c.Count("reconciles_stale_foreign_nodeslo", 1)
+		default:
+			c.Count("reconciles_existing_nodeslo", 1)
 		}
-		n.hasSLO = true
+		n.hasSLO, n.staleSLO = true, false
+	}
+	x.enqueued = map[string]bool{}
+	stored := make([]*c20Obs, nn)
+	for _, ni := range r.Perm(nn) {
+		n := x.nodes[ni]
 		slo := &slov1alpha1.NodeSLO{}
-		if err := x.rec.Client.Get(context.TODO(), key, slo); err != nil {
+		if err := x.rec.Client.Get(context.TODO(), types.NamespacedName{Name: n.node.Name}, slo); err != nil {
 			c.Fail("C20/reconcile/nodeslo-missing", "step %d: no NodeSLO for node-%d after Reconcile: %v", x.step, ni, err)
 		}
 		stored[ni] = c20Observe(&slo.Spec)
@@ -1534,14 +1824,6 @@ func (x *c20Run) observe() {
 		x.check(n, stored[ni], n.prevStored, true)
 	}
 	for ni, n := range x.nodes {
-		slo := &slov1alpha1.NodeSLO{}
-		if err := x.rec.Client.Get(context.TODO(), types.NamespacedName{Name: n.node.Name}, slo); err != nil {
-			c.Fail("C20/reconcile/nodeslo-missing", "step %d: NodeSLO of node-%d disappeared: %v", x.step, ni, err)
-		}
-		c.Count("stored_spec_rereads", 1)
-		if sec, d := c20Observe(&slo.Spec).diff(stored[ni]); d != "" {
-			c.Report("C20/aliasing/"+sec+"/stored-spec-changed-by-other-reconcile", "step %d: the stored NodeSLO of node-%d changed while other nodes were reconciled: %s", x.step, ni, d)
-		}
 		n.prev, n.prevSpec, n.prevStored = obs[ni], specs[ni], stored[ni]
 	}
 }
@@ -1557,23 +1839,30 @@ func TestVerifC20Layering(t *testing.T) {
 			defaults[sec.name] = c20FlattenAny(sec.def())
 		}
 	}
-	kit.Run(t, kit.Config{Property: "C20", Unit: "layering", Quick: 1500, Thorough: 50000,
-		Rule: "one case = 3-8 steps over 3-5 Node objects in a fake API (40% carry the node bandwidth annotation, per-node sentinel band); step kinds: ConfigMap update through the real syncConfig with each of the five sections independently absent / {} / partial / full / malformed (truncated, wrong type, garbage) / unchanged text; withdrawal-only update (a member, a node entry, the cluster layer or a whole section taken away, all other text unchanged); node relabel / annotation change; no change. After EVERY step: getNodeSLOSpec for every node in random order with interleaved and full re-computations (must be identical), then the real Reconcile for every node (existing NodeSLO, or fresh / deleted one) and the stored NodeSLO.Spec read back; computed and stored specs are both compared leaf by leaf with the reflection three-layer oracle. 0-4 node entries per section with selectors over a 3x3 label universe (nil, empty, matchLabels, In/NotIn/Exists/DoesNotExist, 25% literal duplicates of an earlier entry's selector); typed strategies with a random subset of leaves, per-layer sentinel bands; distinct = (section, state, previous state, #entries, #matching entries class, sources of the expected leaves, computed/stored phase, step kind); non-trivial = the case had a malformed-after-good transition AND a node matched by >= 2 entries that differ"},
+	kit.Run(t, kit.Config{Property: "C20", Unit: "layering", Quick: 1300, Thorough: 45000,
+		Rule: "one case = 3-8 (5%: 9-16) steps over 3-5 (rarely 1-2 or 6-9) Node objects in a fake API (40% carry the node bandwidth annotation in any textual quantity form, per-node sentinel band; 25% already have a NodeSLO with unrelated content from an earlier controller instance); first configuration by Create event / loaded at startup through IsCfgAvailable / no ConfigMap at all; step kinds: ConfigMap update delivered through the real Create/Update event handler (written to the API first) with each of the five sections independently absent / {} / partial / full / malformed (truncated, trailing garbage, wrong type incl. fractional / overflowing numbers and bad quantities, garbage) / unchanged text; withdrawal-only update (a member, a node entry, the cluster layer or a whole section taken away, all other text unchanged); node relabel / annotation change; events of other ConfigMaps with hostile content; no change. After EVERY step: getNodeSLOSpec for every node in random order with interleaved and full re-computations (must be identical), then the real Reconcile for the nodes that are due (enqueued by the ConfigMap handler, relabelled, NodeSLO missing, 15% spurious) and the stored NodeSLO.Spec of EVERY node read back; computed and stored specs are both compared leaf by leaf with the reflection three-layer oracle. 0-4 (6%: 5-12) node entries per section, optional / duplicate entry names, selectors over 4 keys (one prefixed) x {a,b,c,empty string} (nil, empty, matchLabels, 1-3 expressions In/NotIn/Exists/DoesNotExist with 1-4 values, 25% literal duplicates of an earlier entry's selector); typed strategies with a random subset of leaves, per-layer sentinel bands with 7% ties, 8% range ends, 64-bit-scale and negative values where the API puts no bound, unknown enum strings, unknown JSON members, 1-5 blkio blocks, 1-8 host applications; distinct = (section, state, previous state, #entries, #matching entries class, sources of the expected leaves, computed/stored phase, step kind); non-trivial = the case had a malformed-after-good transition AND a node matched by >= 2 entries that differ"},
 		func(c *kit.Case) {
 			r := c.R
 			x := &c20Run{c: c, r: r, defaults: defaults, st: map[string]*c20SecState{}}
 			// nodes
 			nNodes := r.Range(3, 5)
+			switch r.Weighted(88, 6, 6) {
+			case 1:
+				nNodes = r.Range(1, 2)
+			case 2:
+				nNodes = r.Range(6, 9)
+			}
+			switch {
+			case nNodes <= 2:
+				c.Count("cases_with_1_2_nodes", 1)
+			case nNodes >= 6:
+				c.Count("cases_with_6plus_nodes", 1)
+			}
 			var objs []runtime.Object
 			for i := 0; i < nNodes; i++ {
 				var lbl map[string]string
 				if !r.Pct(12) {
-					lbl = map[string]string{}
-					for _, k := range c20LabelKeys {
-						if r.Pct(60) {
-							lbl[k] = kit.Pick(r, c20LabelVals)
-						}
-					}
+					lbl = c20GenLabels(r, 60)
 					if r.Pct(30) {
 						lbl["kubernetes.io/hostname"] = fmt.Sprintf("node-%d", i)
 					}
@@ -1586,9 +1875,39 @@ func TestVerifC20Layering(t *testing.T) {
 				}
 				n.node = obj.DeepCopy()
 				objs = append(objs, obj)
+				if r.Pct(25) {
+					// a NodeSLO left by an earlier controller instance under some other configuration: the
+					// first Reconcile takes the update path and must leave exactly the expected spec
+					g := &c20Gen{r: r, layer: 4, leafPct: kit.Pick(r, []int{30, 100}), structPct: 70}
+					old := &slov1alpha1.NodeSLO{ObjectMeta: metav1.ObjectMeta{Name: obj.Name}}
+					for _, sec := range c20Sections {
+						if sec.typ == nil || !r.Pct(80) {
+							continue
+						}
+						nv := reflect.New(sec.typ)
+						g.fill(nv.Elem())
+						switch v := nv.Interface().(type) {
+						case *slov1alpha1.ResourceThresholdStrategy:
+							old.Spec.ResourceUsedThresholdWithBE = v
+						case *slov1alpha1.ResourceQOSStrategy:
+							old.Spec.ResourceQOSStrategy = v
+						case *slov1alpha1.CPUBurstStrategy:
+							old.Spec.CPUBurstStrategy = v
+						case *slov1alpha1.SystemStrategy:
+							old.Spec.SystemStrategy = v
+						}
+					}
+					if r.Bool() {
+						old.Spec.HostApplications = []slov1alpha1.HostApplicationSpec{{Name: "left-over-app", QoS: apiext.QoSBE}}
+					}
+					objs = append(objs, old)
+					n.hasSLO, n.staleSLO = true, true
+					c.Count("nodes_with_stale_foreign_nodeslo", 1)
+				}
 				x.nodes = append(x.nodes, n)
-				c.Op("node-%d labels=%v bandwidth-annotation=%q", i, lbl, n.ann)
+				c.Op("node-%d labels=%v bandwidth-annotation=%q stale-NodeSLO=%v", i, lbl, n.ann, n.staleSLO)
 			}
+			x.enqueued = map[string]bool{}
 			cl := fake.NewClientBuilder().WithScheme(sch).WithRuntimeObjects(objs...).Build()
 			x.h = NewSLOCfgHandlerForConfigMapEvent(cl, DefaultSLOCfg(), &record.FakeRecorder{})
 			x.rec = &NodeSLOReconciler{Client: cl, Scheme: sch, sloCfgCache: x.h}
@@ -1598,11 +1917,19 @@ func TestVerifC20Layering(t *testing.T) {
 			var sampleSteps []string
 
 			nSteps := r.Range(3, 8)
+			if r.Pct(5) { // "sequences of ConfigMap updates": also long ones
+				nSteps = r.Range(9, 16)
+				c.Count("cases_with_9plus_steps", 1)
+			}
+			// how the controller learns the first configuration: a Create event (usual), or no event at
+			// all - the first Reconcile finds the cache unavailable and loads the ConfigMap from the API
+			// ("startup"), or finds no ConfigMap there and falls back to the defaults ("startup-none")
+			first := []string{"update", "startup", "startup-none"}[r.Weighted(76, 14, 10)]
 			for x.step = 0; x.step < nSteps; x.step++ {
 				x.malformedNow = map[string]bool{}
-				x.stepKind = "update"
+				x.stepKind = first
 				if x.step > 0 {
-					x.stepKind = []string{"update", "withdraw", "relabel", "noop"}[r.Weighted(42, 24, 21, 13)]
+					x.stepKind = []string{"update", "withdraw", "relabel", "noop", "foreign"}[r.Weighted(42, 23, 20, 10, 5)]
 				}
 				if x.stepKind == "withdraw" && !x.genWithdraw() {
 					x.stepKind = "update"
@@ -1610,19 +1937,34 @@ func TestVerifC20Layering(t *testing.T) {
 				switch x.stepKind {
 				case "update":
 					x.genUpdate()
-					x.sync()
+					x.sync("event")
+				case "startup":
+					x.genUpdate()
+					x.sync("startup")
+				case "startup-none":
+					for _, sec := range c20Sections {
+						x.install(sec) // every section absent: the built-in defaults
+					}
+					c.Op("step 0: no slo-controller ConfigMap exists")
 				case "withdraw":
 					c.Count("withdrawal_only_updates", 1)
-					x.sync()
+					x.sync("event")
 				case "relabel":
 					x.relabel()
+				case "foreign":
+					x.foreign()
 				case "noop":
 					c.Op("step %d nothing changes", x.step)
+				}
+				if x.step == 0 { // when the controller starts, the informer delivers a Create event for every Node
+					for _, n := range x.nodes {
+						x.enqueued[n.node.Name] = true
+					}
 				}
 				c.Count("steps_"+x.stepKind, 1)
 				if len(sampleSteps) < 8 {
 					d := x.stepKind
-					if x.stepKind == "update" || x.stepKind == "withdraw" {
+					if x.stepKind == "update" || x.stepKind == "withdraw" || x.stepKind == "startup" {
 						d += ":"
 						for _, sec := range c20Sections {
 							d += fmt.Sprintf(" %s=%s(%d)", sec.name, x.st[sec.name].lastState, len(x.st[sec.name].eff.entries))
